@@ -9,7 +9,7 @@ from mv import hperm
 
 from mv import gen_atoms, model_atoms as M
 from mv.quiet import silenced
-from mv.runner import EnumPart, HypPart, Violation
+from mv.runner import EnumPart, FuzzPart, HypPart, Violation
 
 PROPERTY = "C11"
 RULE = ("Exhaustive: self from a fixed family of 0..3-atom structures (the 0-atom one is a structure emptied by deletion; "
@@ -308,4 +308,5 @@ def random_oracle(case, stats):
 PARTS = [
     EnumPart("exhaustive-small", enum_cases, oracle, exhaustive=lambda tier: tier == "thorough", chunk=400),
     HypPart("random", lambda tier: random_case(), random_oracle, {"quick": 5000, "thorough": 40000}),
+    FuzzPart("coverage-guided-random", "random", runs=5000),
 ]
